@@ -642,3 +642,66 @@ package sse
 //@   modifies s.provider
 //@   ensures forwards_once_with_default_topic: ncalls() == old(ncalls()) + 1 && iscall(old(ncalls()), "Publish") && carg(old(ncalls()), "Publish", 0) == e &&
 //@       carg(old(ncalls()), "Publish", 1) == ite(len(topics) == 0, defaultTopicSlice, topics) && result == cret(old(ncalls()), "Publish", 0)
+
+// ---------------------------------------------------------------------------------------------------------
+// client_connection.go: callback registry (C13)
+// ---------------------------------------------------------------------------------------------------------
+
+//@ guarded Connection mu callbacks callbacksAll callbackID
+
+//@ pure reg(c, e, k) = has(c.callbacks, e) && has(c.callbacks[e], k)
+//@ pure cbof(c, e, k) = c.callbacks[e][k]
+//@ pure connok(c) = c.callbacks != nil && c.callbacksAll != nil && allocated(c.callbacks) && allocated(c.callbacksAll) &&
+//@     all(e, "string", has(c.callbacks, e) ==> c.callbacks[e] != nil && c.callbacks[e] != c.callbacksAll && allocated(c.callbacks[e])) &&
+//@     all(e1, "string", all(e2, "string", e1 != e2 && has(c.callbacks, e1) && has(c.callbacks, e2) ==> c.callbacks[e1] != c.callbacks[e2])) &&
+//@     all(e, "string", all(k, "int", reg(c, e, k) ==> k < c.callbackID)) &&
+//@     all(k, "int", has(c.callbacksAll, k) ==> k < c.callbackID)
+
+//@ func Connection.addSubscriberToAll
+//@   requires c != nil && connok(c)
+//@   assume id_counter_does_not_overflow: c.callbackID < 9223372036854775807
+//@   modifies c.callbackID, mapcell(c.callbacksAll)
+//@   ensures invariant_kept: connok(c)
+//@   ensures registered_under_fresh_id: has(c.callbacksAll, old(c.callbackID)) && c.callbacksAll[old(c.callbackID)] == cb && c.callbackID == old(c.callbackID) + 1
+//@   ensures other_all_subscriptions_untouched: all(k, "int", k != old(c.callbackID) ==> has(c.callbacksAll, k) == old(has(c.callbacksAll, k)) && c.callbacksAll[k] == old(c.callbacksAll[k]))
+//@   ensures typed_subscriptions_untouched: all(e, "string", all(k, "int", reg(c, e, k) == old(reg(c, e, k)) && cbof(c, e, k) == old(cbof(c, e, k))))
+
+//@ func Connection.addSubscriberToAll$1
+//@   requires c != nil && connok(c)
+//@   modifies mapcell(c.callbacksAll)
+//@   ensures invariant_kept: connok(c)
+//@   ensures removed: !has(c.callbacksAll, id)
+//@   ensures other_all_subscriptions_untouched: all(k, "int", k != id ==> has(c.callbacksAll, k) == old(has(c.callbacksAll, k)) && c.callbacksAll[k] == old(c.callbacksAll[k]))
+//@   ensures typed_subscriptions_untouched: all(e, "string", all(k, "int", reg(c, e, k) == old(reg(c, e, k)) && cbof(c, e, k) == old(cbof(c, e, k))))
+
+//@ func Connection.addSubscriber
+//@   requires c != nil && connok(c)
+//@   assume id_counter_does_not_overflow: c.callbackID < 9223372036854775807
+//@   modifies c.callbackID, mapcell(c.callbacks), mapcell(c.callbacks[event])
+//@   ensures invariant_kept: connok(c)
+//@   ensures registered_under_fresh_id: reg(c, event, old(c.callbackID)) && cbof(c, event, old(c.callbackID)) == cb && c.callbackID == old(c.callbackID) + 1
+//@   ensures other_typed_subscriptions_untouched: all(e, "string", all(k, "int", !(e == event && k == old(c.callbackID)) ==> reg(c, e, k) == old(reg(c, e, k)) && (reg(c, e, k) ==> cbof(c, e, k) == old(cbof(c, e, k)))))
+//@   ensures all_subscriptions_untouched: all(k, "int", has(c.callbacksAll, k) == old(has(c.callbacksAll, k)) && c.callbacksAll[k] == old(c.callbacksAll[k]))
+
+//@ func Connection.addSubscriber$1
+//@   requires c != nil && connok(c)
+//@   modifies mapcell(c.callbacks), mapcell(old(c.callbacks[event]))
+//@   ensures invariant_kept: connok(c)
+//@   ensures removed: !reg(c, event, id)
+//@   ensures other_typed_subscriptions_untouched: all(e, "string", all(k, "int", !(e == event && k == id) ==> reg(c, e, k) == old(reg(c, e, k)) && (reg(c, e, k) ==> cbof(c, e, k) == old(cbof(c, e, k)))))
+//@   ensures all_subscriptions_untouched: all(k, "int", has(c.callbacksAll, k) == old(has(c.callbacksAll, k)) && c.callbacksAll[k] == old(c.callbacksAll[k]))
+
+//@ pure typedcbs(c, ev) = c.callbacks[ev.Type]
+//@ pure typedcall(c, ev, x) = cloop(x) == 0 && has(typedcbs(c, ev), ckeyint(x)) && callatkey(0, ckeyint(x)) == x && crecv(x) == typedcbs(c, ev)[ckeyint(x)]
+//@ pure allcall(c, x) = cloop(x) == 1 && has(c.callbacksAll, ckeyint(x)) && callatkey(1, ckeyint(x)) == x && crecv(x) == c.callbacksAll[ckeyint(x)]
+
+//@ func Connection.dispatch
+//@   requires c != nil && connok(c)
+//@   ensures every_callback_of_the_type_called: all(k, "int", has(typedcbs(c, ev), k) ==> old(ncalls()) <= callatkey(0, k) && callatkey(0, k) < ncalls() && typedcall(c, ev, callatkey(0, k)) && ckeyint(callatkey(0, k)) == k)
+//@   ensures every_subscribe_to_all_callback_called: all(k, "int", has(c.callbacksAll, k) ==> old(ncalls()) <= callatkey(1, k) && callatkey(1, k) < ncalls() && allcall(c, callatkey(1, k)) && ckeyint(callatkey(1, k)) == k)
+//@   ensures only_subscribed_callbacks_each_once: forall(x, old(ncalls()), ncalls(), iscall(x, "cb") && carg(x, "cb", 0) == ev && (typedcall(c, ev, x) || allcall(c, x)))
+//@   invariant 0 visited_were_called: all(k, "int", visited(0, k) ==> has(typedcbs(c, ev), k) && old(ncalls()) <= callatkey(0, k) && callatkey(0, k) < ncalls() && typedcall(c, ev, callatkey(0, k)) && ckeyint(callatkey(0, k)) == k)
+//@   invariant 0 calls_are_visited: forall(x, old(ncalls()), ncalls(), iscall(x, "cb") && carg(x, "cb", 0) == ev && typedcall(c, ev, x) && visited(0, ckeyint(x)))
+//@   invariant 1 typed_done: all(k, "int", has(typedcbs(c, ev), k) ==> old(ncalls()) <= callatkey(0, k) && callatkey(0, k) < ncalls() && typedcall(c, ev, callatkey(0, k)) && ckeyint(callatkey(0, k)) == k)
+//@   invariant 1 visited_were_called: all(k, "int", visited(1, k) ==> has(c.callbacksAll, k) && old(ncalls()) <= callatkey(1, k) && callatkey(1, k) < ncalls() && allcall(c, callatkey(1, k)) && ckeyint(callatkey(1, k)) == k)
+//@   invariant 1 calls_are_visited: forall(x, old(ncalls()), ncalls(), iscall(x, "cb") && carg(x, "cb", 0) == ev && (typedcall(c, ev, x) || (allcall(c, x) && visited(1, ckeyint(x)))))
